@@ -350,10 +350,10 @@ func (a *Nary) Eval(c Context) Value {
 		return addsub(exprs, c)
 	case tok.Mul: // includes Div
 		return muldiv(exprs, c)
-	case tok.BitOr:
-		return nary(exprs, c, OpBitOr, allones)
+	case tok.BitOr: // no short circuit, like codegen
+		return nary(exprs, c, OpBitOr, nil)
 	case tok.BitAnd:
-		return nary(exprs, c, OpBitAnd, Zero)
+		return nary(exprs, c, OpBitAnd, nil)
 	case tok.BitXor:
 		return nary(exprs, c, OpBitXor, nil)
 	case tok.Or:
